@@ -3,6 +3,12 @@ EXTENDS SockXfer
 LensAll   == {1, 62, 4095, 4096, 4097, 8192, 16385, 20000}
 LensSmall == {1, 62, 4097}
 ModesAll  == {"eof", "nbio"}
+NoPats    == {<<>>}
+\* long transfers: cyclic patterns for the whole transfer
+LensLongQuick    == {1000, 4097}
+LensLongThorough == {1000, 4097, 8192, 20000}
+WPatsLong == {<<<<"ok", 0>>>>, <<<<"sh", 5>>, <<"ei", 0>>>>, <<<<"sh", 3>>, <<"ea", 0>>, <<"ei", 0>>>>}
+RPatsLong == {<<<<"sh", 5>>, <<"ei", 0>>>>, <<<<"ei", 0>>, <<"ei", 0>>, <<"sh", 7>>>>, <<<<"ei", 0>>, <<"ok", 0>>>>, <<<<"sh", 1>>>>}
 ObsEmit(r) == PrintT(ToJson(r))
 ObsNone(r) == TRUE
 ================================================================================
